@@ -426,6 +426,14 @@ def _find_subscriptions(program, site: Site, f, nested, ex=None):
     return out
 
 
+def _no_decorator(fmod, fn, which):
+    """a decorated handler is the decorator's result, not the function under it: analysing the bare body would ignore whatever the
+    decorator adds (a try / except around it, a call that is skipped)"""
+    if isinstance(fn, ast.FunctionDef) and fn.decorator_list:
+        raise AnalysisError("%s: the %s handler %s is decorated (%s); the analysis does not follow decorators" % (
+            fmod.where(fn), which, fn.name, ", ".join(ast.unparse(d)[:40] for d in fn.decorator_list)))
+
+
 def _handler_from_term(site: Site, which, t, node, capture=None) -> Optional[HandlerRef]:
     if t is None or t == ("const", None):
         return HandlerRef("absent")
@@ -441,6 +449,7 @@ def _handler_from_term(site: Site, which, t, node, capture=None) -> Optional[Han
     if t[0] not in ("func", "lambda"):
         return None
     fn, fmod = t[1], t[2]
+    _no_decorator(fmod, fn, which)
     sc = fmod.scopes[fn]
     params = list(sc.params)
     bound = {}
@@ -576,6 +585,7 @@ def _resolve_handler(program, site: Site, in_fn, which, e, ex=None) -> HandlerRe
     if fn is None:
         raise AnalysisError("%s: cannot resolve %s handler %s of %s" % (
             module.where(e), which, ast.unparse(e), site.name))
+    _no_decorator(fmod, fn, which)
     sc = fmod.scopes[fn]
     event_param = None
     if which in ("on_next", "on_error"):
